@@ -116,6 +116,10 @@ class History:
             ns = rng.choice(self.cfg['served']) if rng.random() < 0.9 else \
                 rng.choice(NAMESPACES + ['/nope'])
         ev = rng.choice(S.EVENT_POOL)
+        if rng.random() < 0.04:
+            # an event literally named like the catch-all key
+            ev = '*'
+            self.ctx.count('events_literally_named_star')
         args = [tok] + gen.gen_args(rng, True, 3, maxn=3)
         pid = rng.choice(IDS)
         if self.cfg['serializer'] == 'msgpack' and pid is not None and \
@@ -807,6 +811,7 @@ def run(ctx):
         'background handler threads/tasks are joined before judging',
         'client frames are produced by the reference codec']
     ctx.require('events_judged', 100)
+    ctx.require('events_literally_named_star', 20)
     ctx.require('handler_invocations_checked', 50)
     ctx.require('acks_checked', 30)
     ctx.require('order_checks', 5)
